@@ -72,10 +72,8 @@ Section VelModel.
     (ten_velocity_in actuator_velocity_in : Z -> Z -> S)
     (cvel_in subtree_linvel_in subtree_angmom_in : Z -> Z -> list S).
 
-  Definition sensor_vel_model : list (write S) :=
-    let sid := sensor_vel_adr velid in
-    let t := sensor_type sid in
-    let objid := sensor_objid sid in
+  (* [t] = the sensor type the branch is selected on, [sid] = sensor id, [objid] = its object *)
+  Definition sensor_vel_model_gen (t sid objid : Z) : list (write S) :=
     let wv := write_vector w (sensor_adr sid) (sensor_type sid) (sensor_datatype sid) (sensor_cutoff sid) in
     let wsc := write_scalar w (sensor_adr sid) (sensor_type sid) (sensor_datatype sid) (sensor_cutoff sid) in
     if Z.eqb t 2 then wv (_velocimeter body_rootid site_bodyid site_xpos_in site_xmat_in subtree_com_in cvel_in w objid) 3%nat
@@ -95,6 +93,10 @@ Section VelModel.
     else if Z.eqb t 36 then wv (_subtree_linvel subtree_linvel_in w objid) 3%nat
     else if Z.eqb t 37 then wv (_subtree_angmom subtree_angmom_in w objid) 3%nat
     else [].
+
+  Definition sensor_vel_model : list (write S) :=
+    let sid := sensor_vel_adr velid in
+    sensor_vel_model_gen (sensor_type sid) sid (sensor_objid sid).
 End VelModel.
 
 (* ---- one task of sensor._sensor_pos (every type except the three geom-distance types, whose
@@ -129,10 +131,7 @@ Section PosModel.
     else if Z.eqb objtype 7 then Some (cam_xpos_in w objid)
     else None.
 
-  Definition sensor_pos_model : list (write S) :=
-    let sid := sensor_pos_adr posid in
-    let t := sensor_type sid in
-    let objid := sensor_objid sid in
+  Definition sensor_pos_model_gen (t sid objid : Z) : list (write S) :=
     let wv := write_vector w (sensor_adr sid) (sensor_type sid) (sensor_datatype sid) (sensor_cutoff sid) in
     let wsc := write_scalar w (sensor_adr sid) (sensor_type sid) (sensor_datatype sid) (sensor_cutoff sid) in
     if Z.eqb t 6 then wv (_magnetometer opt_magnetic site_xmat_in w objid opt_magnetic__shape0) 3%nat
@@ -166,6 +165,10 @@ Section PosModel.
     else if Z.eqb t 44 then wsc (vget (energy_in w) 1)
     else if Z.eqb t 45 then wsc (_clock time_in w)
     else [].
+
+  Definition sensor_pos_model : list (write S) :=
+    let sid := sensor_pos_adr posid in
+    sensor_pos_model_gen (sensor_type sid) sid (sensor_objid sid).
 End PosModel.
 
 (* ---- the limit kernels and the tendon-actuator-force cutoff pass ---------------------------- *)
